@@ -71,6 +71,9 @@ def plan(ctx):
     mds = [(2, 1), (2, 2), (3, 2)] + ([(4, 2), (3, 3), (4, 3), (5, 3), (4, 4), (6, 3), (6, 4), (8, 4), (10, 2)] if thorough else [])
     for k, m in mds:
         sets = list(esets(k + m, m, m))
+        if len(sets) > 60:
+            import random as _r
+            sets = _r.Random(ctx.seed or 4).sample(sets, 60)
         for i, ch in enumerate(chunks(sets, 1)):
             obs.append(be_l1_ob(RS, k, m, m, ch, w=1, tag="mds", idx=i, timeout=1500, mem=(12 if k >= 8 else 4)))
     return {"obs": obs, "native": [native_k2],
